@@ -471,6 +471,12 @@ class FieldValueComponentStringBase64(FieldValueComponentQuotedString):
         validator=attr.validators.instance_of(Base64Data)
     )
 
+    @value.validator
+    def _value_validate(self, _, value):
+        # the composed form of no data at all ("") is not accepted back
+        if not bytes(value.value):
+            raise InvalidValue(value, type(self), 'value')
+
     @classmethod
     @abc.abstractmethod
     def get_canonical_name(cls):
